@@ -540,26 +540,147 @@ example : (run init (openConn 0 ++ toOrigin 0 {} ++ beginShutdown ++
       (fun s => ((s.conns 0).pc, (s.conns 0).unseen, (s.conns 0).sockClosed)) =
     some (.counterDec, [true], true) := by decide
 
-/-! ## E. `Close` -/
+/-! ## E. `Close`
+
+  THE CLAUSE AS IT READS — "after a subsequent Close every accepted socket is closed" — is
+  `c11_after_close_every_socket_closed_full` below, and it is FALSE of the code (known finding F53,
+  `c11_close_returns_during_close_notify_witness`): `Proxy.Close` calls `conn.Close()` on every connection of the map,
+  but a connection whose handler is inside its own `conn.Close()` (`closingSock`) answers the second call at once
+  with an error and stays open until the first call gets to the socket (`Model/C11.lean` `sweepClose`; on a TLS
+  connection the first call is writing `close_notify` under a 5 s write deadline to a peer that may not read).
+  What IS proved: every socket whose handler is not inside its own Close is closed when `Close` returns, the pending
+  closes can always return, and once they have every socket is closed. -/
 
 /-- while `Close` walks the map (one `conn.Close()` per step, in any order) every registered
-    connection is still on its list or already closed; nothing can register or unregister meanwhile -/
+    connection is still on its list, already closed, or being closed by its own handler (which is inside its
+    `conn.Close()`); nothing can register or unregister meanwhile -/
 theorem c11_close_sweep_covers_map {s : State} (h : Reachable s) (k : CallId) (hs : s.closes k = .closedCh)
-    (c : ConnId) (hc : c ∈ s.registered) : c ∈ s.sweepLeft ∨ (s.conns c).sockClosed = true :=
+    (c : ConnId) (hc : c ∈ s.registered) :
+    c ∈ s.sweepLeft ∨ (s.conns c).sockClosed = true ∨ (s.conns c).pc = .closingSock :=
   (inv_reachable h).sweep k hs c hc
 
-/-- after a call of `Close` — any call, the first or a later one, made alone, after a `Shutdown` or while
-    one waits — swept the map, every connection that ever registered has its socket closed, or
-    registered after `closing` (and then closes itself without reading, C) -/
+/-- PARTIAL (F53).  After a call of `Close` — any call, the first or a later one, made alone, after a `Shutdown` or
+    while one waits — swept the map, every connection that ever registered has its socket closed, or its handler is
+    INSIDE its own `conn.Close()` (the call has begun and not returned: the socket is closed when it does,
+    `c11_close_returns_before_decrement`), or it registered after `closing` (and then closes itself without
+    reading, C) -/
 theorem c11_after_close_all_closed {s : State} (h : Reachable s) (k : CallId)
     (hs : closeSwept (s.closes k) = true) (c : ConnId) (hc : preReg (s.conns c).pc = false) :
-    (s.conns c).sockClosed = true ∨
+    (s.conns c).sockClosed = true ∨ (s.conns c).pc = .closingSock ∨
     ((s.conns c).regClosing = true ∧ (s.conns c).reads = 0 ∧ noService (s.conns c).pc = true) := by
   have hi := inv_reachable h
-  rcases hi.afterClose k hs c hc with h1 | h1
+  rcases hi.afterClose k hs c hc with (h1 | h1) | h1
   · exact Or.inl h1
+  · exact Or.inr (Or.inl h1)
   · have := (hi.loc c).late h1
-    exact Or.inr ⟨h1, this.1, this.2.2⟩
+    exact Or.inr (Or.inr ⟨h1, this.1, this.2.2⟩)
+
+/-- THE FULL CLAUSE: once a call of `Close` has swept the map — in particular when it returns, and from then on — the
+    socket of every connection that was served (registered before `closing` was set; a later registrant closes
+    itself without reading, C) is closed. -/
+def c11_after_close_every_socket_closed_full : Prop :=
+  ∀ (s : State), Reachable s → ∀ (k : CallId), closeSwept (s.closes k) = true → ∀ (c : ConnId),
+    preReg (s.conns c).pc = false → (s.conns c).regClosing = false → (s.conns c).sockClosed = true
+
+/-- PARTIAL (F53): the full clause for every connection whose handler is NOT inside its own `conn.Close()` at
+    that moment -/
+theorem c11_after_close_every_socket_closed_partial {s : State} (h : Reachable s) (k : CallId)
+    (hs : closeSwept (s.closes k) = true) (c : ConnId) (hc : preReg (s.conns c).pc = false)
+    (hr : (s.conns c).regClosing = false) (hp : (s.conns c).pc ≠ .closingSock) :
+    (s.conns c).sockClosed = true := by
+  rcases c11_after_close_all_closed h k hs c hc with h1 | h1 | h1
+  · exact h1
+  · exact absurd h1 hp
+  · rw [hr] at h1; cases h1.1
+
+/-- a close that is under way can always return (the step is the handler's alone: it needs neither the mutex nor
+    any other goroutine), and when it has the socket is closed; nothing else about `Close`'s calls changes -/
+theorem c11_pending_close_can_complete {s : State} (c : ConnId) (hp : (s.conns c).pc = .closingSock) :
+    ∃ s', step s (.conn c .closeDone) = some s' ∧ (s'.conns c).sockClosed = true ∧ (s'.conns c).pc = .counterDec ∧
+      s'.closes = s.closes ∧ ∀ d, d ≠ c → s'.conns d = s.conns d :=
+  step_closeDone c hp
+
+/-- PARTIAL (F53), the other half: from every reachable state in which a call of `Close` has swept the map, the
+    closes that are under way (one step each, the handlers' own) can all return, and once they have EVERY connection
+    that ever registered has its socket closed (or registered after `closing`): the sockets that outlive `Close` are
+    exactly those inside a handler's `conn.Close()`, for exactly as long as that call takes -/
+theorem c11_after_close_all_closed_once_pending_closes_returned {s : State} (h : Reachable s) (k : CallId)
+    (hs : closeSwept (s.closes k) = true) :
+    ∃ s', run s (pendingCloseReturns (s.ids.filter fun c => (s.conns c).pc = .closingSock)) = some s' ∧
+      closeSwept (s'.closes k) = true ∧
+      ∀ c, preReg (s'.conns c).pc = false →
+        (s'.conns c).sockClosed = true ∨
+        ((s'.conns c).regClosing = true ∧ (s'.conns c).reads = 0 ∧ noService (s'.conns c).pc = true) := by
+  have hi := inv_reachable h
+  obtain ⟨s', h1, h2, h3, h4⟩ := run_pendingCloseReturns (s.ids.filter fun c => (s.conns c).pc = .closingSock) s
+    (hi.nodup.filter _) (fun c hc => by simpa using (List.mem_filter.mp hc).2)
+  refine ⟨s', h1, by rw [h2]; exact hs, fun c hc => ?_⟩
+  by_cases hp : (s.conns c).pc = .closingSock
+  · have hcid : c ∈ s.ids := mem_ids_of_pc hi (by rw [hp]; simp)
+    exact Or.inl (h3 c (List.mem_filter.mpr ⟨hcid, by simpa using hp⟩))
+  · have hnot : c ∉ s.ids.filter (fun c => (s.conns c).pc = .closingSock) := by
+      intro hm; exact hp (by simpa using (List.mem_filter.mp hm).2)
+    rw [h4 c hnot] at hc ⊢
+    rcases c11_after_close_all_closed h k hs c hc with g | g | g
+    · exact Or.inl g
+    · exact absurd g hp
+    · exact Or.inr g
+
+/-- a TLS connection `c` up to its idle read -/
+def openTLSConn (c : ConnId) : List Action :=
+  [.connect c true, .serveCheck, .accept c, .conn c .lockReq, .conn c .lockAcq, .conn c .insert,
+   .conn c .counterAdd, .conn c .unlockReg, .conn c .check0, .hello c, .conn c .tlsDone]
+
+/-- the recorded case (corpus/C11/f53-close-returns-during-tls-close-notify.json): a request on a TLS connection is at
+    its origin; `Shutdown` with a short context gives up (`DeadlineExceeded`); the origin answers, the response goes
+    out with `Connection: close` and the handler enters `conn.Close()`, whose `close_notify` the peer does not take;
+    `Close` is called, walks the map, and returns -/
+def closeDuringCloseNotify : List Action :=
+  openTLSConn 0 ++ toOrigin 0 {} ++ beginShutdown ++
+    [.shutPoll 0, .ctxExpire 0, .shutCtx 0, .shutUnlock 0, .shutdownRet 0 (some .deadline),
+     .originAnswer 0, .conn 0 .respReady, .conn 0 .writeHead, .conn 0 .writeDone, .respSeen 0 true, .conn 0 .closeStart,
+     .closeCall 0, .closeLock 0, .closeCloseCh 0, .closeConn 0 0, .closeAll 0, .closeUnlock 0, .closeRet 0]
+
+/-- WITNESS (F53): `Close` has returned to its caller; the connection was served (registered before `closing`, one
+    request read and forwarded, its response delivered); its handler is inside `conn.Close()`; its socket is OPEN -/
+theorem c11_close_returns_during_close_notify_witness :
+    (run init closeDuringCloseNotify).map (fun s =>
+      (s.closes 0, (s.conns 0).tls, (s.conns 0).pc, (s.conns 0).sockClosed)) =
+      some (.done, true, .closingSock, false) ∧
+    (run init closeDuringCloseNotify).map (fun s =>
+      ((s.conns 0).regClosing, (s.conns 0).reads, (s.conns 0).forwards, (s.conns 0).unseen, s.counter)) =
+      some (false, 1, 1, [], 1) := by decide
+
+-- the client cannot see the socket closed yet …
+example : (run init (closeDuringCloseNotify ++ [.closedSeen 0])).isSome = false := by decide
+-- … it does once the handler's close has returned (the stalled `close_notify` went out or its deadline passed)
+example : (run init (closeDuringCloseNotify ++ [.conn 0 .closeDone, .closedSeen 0, .conn 0 .counterDec])).map
+    (fun s => ((s.conns 0).sockClosed, s.counter)) = some (true, 0) := by decide
+-- … and `pendingCloseReturns` is that step
+example : (run init closeDuringCloseNotify).map (fun s => s.ids.filter fun c => (s.conns c).pc = .closingSock) =
+    some [0] := by decide
+
+/-- … so the full clause is FALSE of the code -/
+theorem c11_after_close_every_socket_closed_full_false : ¬ c11_after_close_every_socket_closed_full := by
+  intro hfull
+  have hsome : (run init closeDuringCloseNotify).isSome = true := by decide
+  obtain ⟨s, hs⟩ := Option.isSome_iff_exists.mp hsome
+  have hv : (run init closeDuringCloseNotify).map (fun s =>
+      (closeSwept (s.closes 0), preReg (s.conns 0).pc, (s.conns 0).regClosing, (s.conns 0).sockClosed)) =
+      some (true, false, false, false) := by decide
+  rw [hs] at hv
+  simp only [Option.map_some, Option.some.injEq, Prod.mk.injEq] at hv
+  have := hfull s (reachable_run Reachable.init hs) 0 hv.1 0 hv.2.1 hv.2.2.1
+  rw [hv.2.2.2] at this
+  cases this
+
+-- a handler that has NOT begun its close is closed by the sweep as before: the same history with `Close` called
+-- while the response is still being written
+example : (run init (openTLSConn 0 ++ toOrigin 0 {} ++ beginShutdown ++
+    [.shutPoll 0, .ctxExpire 0, .shutCtx 0, .shutUnlock 0, .shutdownRet 0 (some .deadline),
+     .originAnswer 0, .conn 0 .respReady, .conn 0 .writeHead,
+     .closeCall 0, .closeLock 0, .closeCloseCh 0, .closeConn 0 0, .closeAll 0, .closeUnlock 0, .closeRet 0])).map
+      (fun s => (s.closes 0, (s.conns 0).pc, (s.conns 0).sockClosed)) = some (.done, .writing, true) := by decide
 
 -- Close with a request at the origin and an idle connection: both sockets closed
 example : (run init (openConn 0 ++ openConn 1 ++ toOrigin 0 {} ++
@@ -730,7 +851,10 @@ theorem c11_nolimit_run_never_closes {s : State} (h : Reachable s) (hn : s.cfgNo
 def connSettled (x : Conn) : Prop :=
   preReg x.pc = true ∨
   (x.regClosing = true ∧ x.reads = 0 ∧ x.forwards = 0 ∧ noService x.pc = true) ∨
-  x.sockClosed = true
+  x.sockClosed = true ∨
+  -- (F53) its handler is inside its own `conn.Close()`: nothing is served on it any more, the socket is closed when
+  -- that call returns — `Close`, if `run` had to call it, did not close it (`sweepClose`)
+  x.pc = .closingSock
 
 /-- … and `run` returns only after `Shutdown` returned nil, i.e. (B) after the counter reached 0
     with every served connection closed by its own handler -/
@@ -863,8 +987,9 @@ theorem c11_tunnel_ends_by_endpoint_or_forced_close {s s' : State} {c : ConnId} 
 theorem c11_after_close_tunnel_socket_closed {s : State} (h : Reachable s) (k : CallId)
     (hs : closeSwept (s.closes k) = true) (c : ConnId) (hp : (s.conns c).pc = .tunnel) :
     (s.conns c).sockClosed = true := by
-  rcases c11_after_close_all_closed h k hs c (by rw [hp]; rfl) with h1 | ⟨_, _, h1⟩
+  rcases c11_after_close_all_closed h k hs c (by rw [hp]; rfl) with h1 | h1 | ⟨_, _, h1⟩
   · exact h1
+  · rw [hp] at h1; cases h1
   · rw [hp] at h1; cases h1
 
 -- the CONNECT is at its target when shutdown begins, the dial returns later: 200 without
@@ -958,13 +1083,14 @@ theorem c11_run_returns_everything_closed {s s' : State} (h : Reachable s) (hst 
   · rcases c11_after_nil_no_service h _ h1 c with h2 | h2 | h2
     · exact Or.inl h2
     · exact Or.inr (Or.inl h2)
-    · exact Or.inr (Or.inr h2.2)
+    · exact Or.inr (Or.inr (Or.inl h2.2))
   · cases hp : preReg (s.conns c).pc with
     | true => exact Or.inl hp
     | false =>
       rcases c11_after_close_all_closed h s.runClose (by
-        rw [show s.closes s.runClose = .done from h1]; rfl) c hp with h2 | h2
-      · exact Or.inr (Or.inr h2)
+        rw [show s.closes s.runClose = .done from h1]; rfl) c hp with h2 | h2 | h2
+      · exact Or.inr (Or.inr (Or.inl h2))
+      · exact Or.inr (Or.inr (Or.inr h2))
       · have := ((inv_reachable h).loc c).late h2.1
         exact Or.inr (Or.inl ⟨h2.1, this⟩)
 
